@@ -287,7 +287,9 @@ impl<'ast, 's> Visit<'ast> for Finder<'s> {
                 return;
             }
             // ---- R14: combinators with closure literals
-            syn::Expr::MethodCall(mc) if self.on("R14") && mc.args.len() == 1 => {
+            syn::Expr::MethodCall(mc)
+                if self.on("R14") && mc.args.len() == 1 && matches!(&mc.args[0], syn::Expr::Closure(_)) =>
+            {
                 if let syn::Expr::Closure(c) = &mc.args[0] {
                     let m = mc.method.to_string();
                     if let Some(ps) = closure_simple(c) {
@@ -341,15 +343,18 @@ impl<'ast, 's> Visit<'ast> for Finder<'s> {
                 }
             }
             syn::Expr::MethodCall(mc)
-                if self.on("R14") && mc.args.len() == 1 && mc.method == "map"
+                if self.on("R14") && mc.args.len() == 1 && (mc.method == "map" || mc.method == "and_then")
                     && matches!(&mc.args[0], syn::Expr::Path(_)) =>
             {
-                let hint = self.hints.get("map").and_then(|v| v.as_str()).unwrap_or("");
+                let m = mc.method.to_string();
+                let hint = self.hints.get(&m).and_then(|v| v.as_str()).unwrap_or("");
                 let recv = self.txt(&*mc.receiver);
                 let f = self.txt(&mc.args[0]);
-                let rep = match hint {
-                    "option" => Some(format!("(match {recv} {{ Some(__x) => Some({f}(__x)), None => None }})")),
-                    "result" => Some(format!("(match {recv} {{ Ok(__x) => Ok({f}(__x)), Err(__e) => Err(__e) }})")),
+                let rep = match (m.as_str(), hint) {
+                    ("map", "option") => Some(format!("(match {recv} {{ Some(__x) => Some({f}(__x)), None => None }})")),
+                    ("map", "result") => Some(format!("(match {recv} {{ Ok(__x) => Ok({f}(__x)), Err(__e) => Err(__e) }})")),
+                    ("and_then", "option") => Some(format!("(match {recv} {{ Some(__x) => {f}(__x), None => None }})")),
+                    ("and_then", "result") => Some(format!("(match {recv} {{ Ok(__x) => {f}(__x), Err(__e) => Err(__e) }})")),
                     _ => None,
                 };
                 if let Some(rep) = rep {
